@@ -11,6 +11,7 @@ import (
 	"path"
 	"path/filepath"
 	"reflect"
+	"runtime"
 
 	"github.com/akalin/gopar/rsec16"
 )
@@ -27,8 +28,27 @@ func (io defaultFileIO) ReadFile(path string) ([]byte, error) {
 	return ioutil.ReadFile(path)
 }
 
+// globEscape escapes the filepath.Match metacharacters in s, so
+// that the returned pattern matches only s itself.
+func globEscape(s string) string {
+	var escaped []byte
+	for i := 0; i < len(s); i++ {
+		switch c := s[i]; {
+		case c == '*' || c == '?' || c == '[':
+			escaped = append(escaped, '[', c, ']')
+		case c == '\\' && runtime.GOOS != "windows":
+			// On Windows, backslash is the path separator
+			// and not an escape character.
+			escaped = append(escaped, '\\', '\\')
+		default:
+			escaped = append(escaped, c)
+		}
+	}
+	return string(escaped)
+}
+
 func (io defaultFileIO) FindWithPrefixAndSuffix(prefix, suffix string) ([]string, error) {
-	return filepath.Glob(prefix + "*" + suffix)
+	return filepath.Glob(globEscape(prefix) + "*" + globEscape(suffix))
 }
 
 func (io defaultFileIO) WriteFile(path string, data []byte) error {
